@@ -17,9 +17,9 @@ def specMass (k : Nat) : Option (KV.Rec Nat Rat) → Rat
   | none => 0
   | some r => massOf k r
 
-/-- A result whose dictionaries are well formed (no fuel kind / species listed twice). -/
+/-- A result whose species dictionary is well formed (a Python `dict`: no species listed twice).
+Nothing is asked of the fuel list: it may list a kind twice (main and pilot fuel of one kind). -/
 structure WF (a : Result) : Prop where
-  fuel : WellFormed a.fuel
   emis : WFo a.emis
 
 theorem merge_freeze_eq {a b r : Result} (h : merge true a b = .ok r) :
@@ -33,7 +33,7 @@ theorem merge_freeze_eq {a b r : Result} (h : merge true a b = .ok r) :
 
 theorem wf_merge {a b r : Result} (ha : WF a) (hb : WF b) (h : merge true a b = .ok r) : WF r := by
   obtain ⟨_, hf, _, he, _, _⟩ := merge_freeze_eq h
-  refine ⟨hf ▸ C18.add_wellFormed _ _ ha.fuel hb.fuel, ?_⟩
+  refine ⟨?_⟩
   intro e hr
   rw [he] at hr
   cases hea : a.emis <;> cases heb : b.emis <;> simp only [hea, heb, optE] at hr
@@ -78,8 +78,7 @@ theorem addExt_len (xs ys : List Rat) (h : xs.length = ys.length) : (addExt xs y
   C19.addExt_length xs ys h
 
 /-- One merge adds every figure. -/
-theorem figures_merge {a b r : Result} (ha : WF a) (h : merge true a b = .ok r) (hl : a.ext.length = b.ext.length)
-    (hb : WellFormed b.fuel) :
+theorem figures_merge {a b r : Result} (ha : WF a) (h : merge true a b = .ok r) (hl : a.ext.length = b.ext.length) :
     (∀ i, (figures r).ext i = (figures a).ext i + (figures b).ext i) ∧
     (∀ k, (figures r).fuel k = (figures a).fuel k + (figures b).fuel k) ∧
     (∀ k, (figures r).species k = (figures a).species k + (figures b).species k) ∧
@@ -88,7 +87,7 @@ theorem figures_merge {a b r : Result} (ha : WF a) (h : merge true a b = .ok r) 
   obtain ⟨hx, hf, hc, he, _, _⟩ := merge_freeze_eq h
   refine ⟨fun i => ?_, fun k => ?_, fun k => ?_, ?_, ?_, ?_⟩
   · simp only [figures, hx]; exact addExt_getD _ _ hl i
-  · simp only [figures, hf]; exact C18.add_mass k _ _ ha.fuel hb
+  · simp only [figures, hf]; exact C18.add_mass k _ _
   · simp only [figures, he]; exact specMass_optE k _ _ ha.emis
   · simp only [figures, hc]; rfl
   · simp only [figures, hc]; rfl
@@ -122,7 +121,7 @@ theorem fold_eq_sum (n : Nat) (cs : List Result) : ∀ (acc r : Result), WF acc 
       have hwm : WF m := wf_merge hw hc.1 hm
       have hlm : m.ext.length = n := by
         rw [(merge_freeze_eq hm).1, addExt_len _ _ (hl.trans hc.2.symm)]; exact hl
-      obtain ⟨f1, f2, f3, f4, f5, f6⟩ := figures_merge hw hm (hl.trans hc.2.symm) hc.1.fuel
+      obtain ⟨f1, f2, f3, f4, f5, f6⟩ := figures_merge hw hm (hl.trans hc.2.symm)
       obtain ⟨r1, r2, g1, g2, g3, g4, g5, g6⟩ := ih m r hwm hlm (fun x hx => hcs x (List.mem_cons_of_mem _ hx)) h
       refine ⟨r1, r2, fun i => ?_, fun k => ?_, fun k => ?_, ?_, ?_, ?_⟩
       · rw [g1 i, f1 i, List.map_cons, List.sum_cons]; ring
@@ -133,7 +132,7 @@ theorem fold_eq_sum (n : Nat) (cs : List Result) : ∀ (acc r : Result), WF acc 
       · rw [g6, f6, List.map_cons, List.sum_cons]; ring
 
 theorem wf_empty (n : Nat) : WF (empty n) ∧ (empty n).ext.length = n := by
-  refine ⟨⟨by simp [empty, WellFormed, kinds], ?_⟩, by simp [empty]⟩
+  refine ⟨⟨?_⟩, by simp [empty]⟩
   intro r h; simp [empty] at h
 
 theorem figures_empty (n : Nat) : (∀ i, (figures (empty n)).ext i = 0) ∧ (∀ k, (figures (empty n)).fuel k = 0) ∧
